@@ -17,6 +17,9 @@ import (
 
 // ---------------------------------------------------------------- C04
 
+// c04Voucher: a local token shaped like an IBC voucher denom with upper-case hex digits.
+const c04Voucher = "ibc/27394FB092D2ECCD56123C74F36E4C1F926001CEADA9CA97EA622B25F41E5EB2"
+
 var c04RecipientClasses = []string{"plain", "high-bytes-nonzero", "first20-differ", "self-submitter"}
 
 func c04Recipient(cls string, i int) []byte {
@@ -46,7 +49,10 @@ func runC04(rc *RunCtx) {
 				ct.TokenPair{RemoteDomain: 2, RemoteToken: Token(0), LocalToken: "uUSDC"},
 				ct.TokenPair{RemoteDomain: 2, RemoteToken: Token(1), LocalToken: "UUSDC"},
 				ct.TokenPair{RemoteDomain: 3, RemoteToken: Token(0), LocalToken: "ueure"},
-				ct.TokenPair{RemoteDomain: 3, RemoteToken: Token(1), LocalToken: ""}) // a pair imported without a local token
+				ct.TokenPair{RemoteDomain: 3, RemoteToken: Token(1), LocalToken: ""}, // a pair imported without a local token
+				ct.TokenPair{RemoteDomain: 5, RemoteToken: Token(1), LocalToken: c04Voucher},
+				ct.TokenPair{RemoteDomain: 5, RemoteToken: Token(2), LocalToken: "factory/Noble1Creator/UTOKEN"})
+			gs.PerMessageBurnLimitList = append(gs.PerMessageBurnLimitList, ct.PerMessageBurnLimit{Denom: "uusdc", Amount: sdkInt(3)}) // outbound limit only
 		})
 		if err != nil {
 			rc.Cov.Inconclusive(err.Error())
@@ -55,6 +61,7 @@ func runC04(rc *RunCtx) {
 		nonce := uint64(1 + rc.Shard*100000)
 		// ... and one linked by transaction with an empty local token (the handler does not look at it)
 		e.Exec(Tx{Msgs: msgs1(&ct.MsgLinkTokenPair{From: e.M.TC, RemoteDomain: 5, RemoteToken: Token(0), LocalToken: ""}), Note: "C04 link with an empty local token"})
+		e.Exec(Tx{Msgs: msgs1(&ct.MsgLinkTokenPair{From: e.M.TC, RemoteDomain: 5, RemoteToken: Token(3), LocalToken: "IBC/" + strings.ToLower(c04Voucher[4:])}), Note: "C04 link a voucher-shaped local token"})
 		for rep := 0; rep < rc.Pick(2, 8); rep++ {
 			for ai, ac := range AmountClasses {
 				if !double && ac.V.BitLen() > 129 {
@@ -67,7 +74,8 @@ func runC04(rc *RunCtx) {
 						d   uint32
 						tok int
 						sp  string
-					}{{0, 0, "uusdc"}, {2, 0, "uUSDC"}, {2, 1, "UUSDC"}, {3, 0, "ueure"}, {3, 1, "(empty,genesis)"}, {5, 0, "(empty,linked)"}} {
+					}{{0, 0, "uusdc"}, {2, 0, "uUSDC"}, {2, 1, "UUSDC"}, {3, 0, "ueure"}, {3, 1, "(empty,genesis)"}, {5, 0, "(empty,linked)"},
+						{5, 1, "ibc-voucher(genesis)"}, {5, 2, "factory-denom(genesis)"}, {5, 3, "ibc-voucher(linked)"}} {
 						nonce++
 						submitter := Acct((ai + ci + di) % NAccounts)
 						recip := c04Recipient(cls, ai+ci+rep)
@@ -174,7 +182,8 @@ func c04Conservation(e *Engine) {
 
 // ---------------------------------------------------------------- C08
 
-var c08Limits = []*big.Int{big.NewInt(0), big.NewInt(1), big.NewInt(2), big.NewInt(1000000), Two64, Two255, Max256}
+var c08Limits = []*big.Int{big.NewInt(0), big.NewInt(1), big.NewInt(2), big.NewInt(1000000), new(big.Int).Sub(pow2(31), big.NewInt(1)), pow2(32),
+	new(big.Int).Sub(pow2(63), big.NewInt(1)), pow2(63), new(big.Int).Sub(Two64, big.NewInt(1)), Two64, Two128, Two255, Max256}
 
 var PNames = []string{"P1", "P2", "P3", "P4", "P5", "P6", "P7", "P8P9", "P10", "PFrom"}
 
